@@ -216,7 +216,10 @@ func enumerateReader(t *rapid.T, r *core.SplitMix, surface string, doc []byte, i
 						core.Violation(t, "C15:swallowed:"+surface+":partial-data", fmt.Sprintf("reader failed at byte %d/%d (%s, %s), no error reported and the frame differs from the fault-free one: %s", pos, n, shape, k.name, d), tr)
 						return
 					}
-					if k.strict && !withData {
+					// a transient failure after which the call went on and obtained
+					// the complete, correct data is not a loss (e.g. json.Decoder.More
+					// hides a read error and the next Read succeeds): F3 above only
+					if k.strict && !withData && !once {
 						core.Violation(t, "C15:swallowed:"+surface+":"+where, fmt.Sprintf("reader returned (0, %s) at byte %d/%d, the call reported no error", k.name, pos, n), tr)
 						return
 					}
@@ -339,7 +342,7 @@ func enumerateWriter(t *rapid.T, r *core.SplitMix, surface string, input interfa
 				core.Sample(map[string]interface{}{"surface": surface, "fault_free_output": string(want), "writer_full_at_byte": pos, "shape": shape, "kind": k.name, "reported": tr.Reported, "write_call_sizes": w.Sizes})
 			}
 			if err == nil {
-				if w.Fired {
+				if w.Fired && !(once && string(w.Buf) == string(want)) {
 					core.Violation(t, "C15:swallowed:"+surface+":write-error", fmt.Sprintf("writer stopped accepting bytes at offset %d/%d (%s, %s), the call reported success", pos, n, shape, k.name), tr)
 					return
 				}
